@@ -172,6 +172,17 @@ Theorem C13_q_batch_rhat2_is_real : forall cs : list (list Q),
   Q2R (batch_rhat2 numQ cs) = batch_rhat2 numR (map (map Q2R) cs).
 Proof. exact q2r_batch_rhat2. Qed.
 
+(* the acceptance-rate recurrence evaluated by the correspondence check over Q (emaQ, chain_pQ,
+   multi_pQ: normalised exact rationals) is, mapped to the reals with Q2R, the real-number
+   recurrence (emaR, chain_pR, multi_pR) of C13_p_accept_ema .. C13_p_accept_range *)
+From MiniMcmc Require Import Proofs.Links.
+
+Theorem C13_q_ema_is_real :
+  (forall (p : Q) (a : bool), Q2R (emaQ p a) = emaR (Q2R p) a) /\
+  (forall l : list (bool * bool), Q2R (chain_pQ l) = chain_pR l) /\
+  (forall l : list (list bool), Q2R (multi_pQ l) = multi_pR l).
+Proof. exact (conj q2r_ema (conj q2r_chain_p q2r_multi_p)). Qed.
+
 Print Assumptions C13_count.
 Print Assumptions C13_mean.
 Print Assumptions C13_sum_is_sum.
@@ -191,3 +202,4 @@ Print Assumptions C13_p_accept_range.
 Print Assumptions C13_q_tracker_is_real.
 Print Assumptions C13_q_variance_is_real.
 Print Assumptions C13_q_batch_rhat2_is_real.
+Print Assumptions C13_q_ema_is_real.
